@@ -240,3 +240,36 @@ def align_jobs(ctx, jobs, pick, offs=None):
     ctx.stats["alignment_jobs"] = ctx.stats.get("alignment_jobs", 0) + len(sel)
     if sel:
         ctx.assumptions.append("alignment: %d harness jobs repeated with all harness buffers %s bytes off a 16-byte boundary" % (len(sel), list(offs)))
+
+
+def run_on_pty(args, answers, cwd=None, timeout=60, env=None, prompt=b"assword: "):
+    """Runs a program on a pseudo-terminal (its controlling tty) and types one answer per prompt.  Returns (exit status, everything the program wrote to the terminal)."""
+    import pty, select
+    pid, fd = pty.fork()
+    if pid == 0:
+        try:
+            if cwd:
+                os.chdir(cwd)
+            os.execve(args[0], args, env if env is not None else dict(os.environ))
+        finally:
+            os._exit(127)
+    out, sent, answers, t0 = b"", 0, list(answers), time.time()
+    while True:
+        r, _, _ = select.select([fd], [], [], 0.2)
+        if r:
+            try:
+                dta = os.read(fd, 4096)
+            except OSError:
+                break
+            if not dta:
+                break
+            out += dta
+        while answers and sent < out.count(prompt):
+            os.write(fd, answers.pop(0) + b"\n")
+            sent += 1
+        if time.time() - t0 > timeout:
+            os.kill(pid, 9)
+            break
+    _, st = os.waitpid(pid, 0)
+    os.close(fd)
+    return os.waitstatus_to_exitcode(st), out
